@@ -181,6 +181,7 @@ class Repo:
             for k, v in st.items():
                 self.canon_stats[k] = self.canon_stats.get(k, 0) + v
             self.renamed = getattr(self, "renamed", 0) + alpha.normalise(rel, tree)
+            canon.sort_identity_tests(tree)
         is_pkg = path.name == "__init__.py"
         if modname is None:
             relmod = Path(rel).relative_to(pkg_root) if pkg_root else Path(rel)
